@@ -199,10 +199,36 @@ func c12RunMax(sep string, maxIdx int64, initTree map[string]interface{}, probes
 	if sep != "" {
 		opts = append(opts, ucfg.PathSep(sep))
 	}
+	// settings filed under "__literal__" are written WITHOUT the separator: their names, dots
+	// included, are plain top-level names (the history then addresses paths with the separator)
+	var literal map[string]interface{}
+	if l, ok := initTree["__literal__"].(map[string]interface{}); ok {
+		literal = l
+		t2 := map[string]interface{}{}
+		for k, v := range initTree {
+			if k != "__literal__" {
+				t2[k] = v
+			}
+		}
+		root, err := ucfg.NewFrom(t2, opts...)
+		if err != nil {
+			return Case{}, false
+		}
+		for _, k := range sortedKeys(literal) {
+			if root.Merge(map[string]interface{}{k: literal[k]}) != nil {
+				return Case{}, false
+			}
+		}
+		return c12RunBuilt(sep, maxIdx, initTree, root, opts, probes, ops)
+	}
 	root, err := ucfg.NewFrom(initTree, opts...)
 	if err != nil {
 		return Case{}, false
 	}
+	return c12RunBuilt(sep, maxIdx, initTree, root, opts, probes, ops)
+}
+
+func c12RunBuilt(sep string, maxIdx int64, initTree map[string]interface{}, root *ucfg.Config, opts []ucfg.Option, probes []addrT, ops []c12Op) (Case, bool) {
 	popts := fmt.Sprintf("{| p_sep := %s; p_maxIdx := %d; p_numKeys := false; p_escape := false |}", coqStr(sep), maxIdx)
 	init := ucfg.VerifDump(root)
 	p0, d0 := c12Probes(root, probes, opts)
@@ -380,6 +406,19 @@ func genC12(g *Gen) {
 		probes := make([]addrT, 5)
 		for j := range probes {
 			probes[j] = c12RandAddr(r)
+		}
+		if sep == "." && r.P(1, 5) {
+			// plain names that contain the separator, next to the paths they spell
+			lit := map[string]interface{}{}
+			for _, k := range []string{"a.b", "a.l", "l.0", "b.c", "a.b.c"} {
+				if r.Bool() {
+					lit[k] = randScalar(r)
+					probes[r.Intn(len(probes))] = addrT{k, -1}
+				}
+			}
+			if len(lit) > 0 {
+				init["__literal__"] = lit
+			}
 		}
 		nops := 2 + r.Intn(7)
 		ops := make([]c12Op, nops)
